@@ -1353,11 +1353,23 @@ class _TreeItems:
     def __iter__(self):
         bucket = self.firstbucket
         itertype = self.itertype
-        iterargs = self.iterargs
+        min, max, excludemin, excludemax = (
+            tuple(self.iterargs) + (_marker, _marker, False, False)[
+                len(self.iterargs):])
+        # An omitted bound that is exclusive drops only the overall
+        # smallest (largest) key, i.e. it applies to the first (last)
+        # bucket only.
+        omittedmin = min is _marker or min is None
+        omittedmax = max is _marker or max is None
         done = 0
         # Note that we don't mind if the first bucket yields no
         # results due to an idiosyncrasy in how range searches are done.
         while bucket is not None:
+            iterargs = (
+                min, max,
+                excludemin and (not omittedmin or bucket is self.firstbucket),
+                excludemax and (not omittedmax or bucket._next is None),
+            )
             for k in getattr(bucket, itertype)(*iterargs):
                 yield k
                 done = 0
